@@ -43,6 +43,12 @@ func ExtractTypeInfo(t types.Type) *TypeInfo {
 		return nil
 	}
 
+	// A type declared inside a function is not the package-level type of the same name
+	// (and can carry no annotation of its own)
+	if IsLocalType(named) {
+		return nil
+	}
+
 	return &TypeInfo{
 		TypeName: typeName,
 		PkgPath:  pkg.Path(),
@@ -71,4 +77,16 @@ func ExtractTypeName(t types.Type) string {
 	}
 
 	return named.Obj().Name()
+}
+
+// IsLocalType reports whether a named type is declared inside a function body. Such a type lives in
+// the same package as the package-level types and may share a name with one of them, but annotations
+// are only read from package-level declarations, so it never is the annotated type of that name
+func IsLocalType(named *types.Named) bool {
+	obj := named.Obj()
+	if obj == nil || obj.Pkg() == nil {
+		return false
+	}
+	parent := obj.Parent()
+	return parent != nil && parent != obj.Pkg().Scope()
 }
